@@ -548,6 +548,60 @@ func TestLargeSubjects(t *testing.T) {
 	evid.Exhaustive("subjects of 31..1000 elements x bounds around both ends x steps; index read/write", n)
 }
 
+// TestMutationDuringIteration: a for-in over a list sees the list itself, not a copy: a write to a position the
+// loop has not reached yet - directly, through an alias, through an outer container - is seen by the later pass.
+func TestMutationDuringIteration(t *testing.T) {
+	i := func(v int64) *gen.Node { return gen.NInt(v) }
+	n := 0
+	for via := 0; via < 4; via++ {
+		for off := int64(1); off <= 2; off++ {
+			for _, op := range []string{"=", "+="} {
+				var pre []*gen.Node
+				target := "l"
+				switch via {
+				case 1:
+					pre = []*gen.Node{gen.NSet("m", id("l"))}
+					target = "m"
+				case 2:
+					pre = []*gen.Node{gen.NSet("box", gen.NMap(gen.NStr("k"), id("l"))), gen.NSet("m", gen.NIndex(id("box"), gen.NStr("k")))}
+					target = "m"
+				case 3:
+					pre = []*gen.Node{gen.NSet("box", gen.NList(id("l"), i(0)))}
+				}
+				var write *gen.Node
+				idx := gen.NBin("+", id("p"), i(off))
+				if via == 3 {
+					write = gen.NAssign(op, []*gen.Node{gen.NIndex(id("box"), i(0), idx)}, []*gen.Node{gen.NBin("+", id("x"), i(100))})
+				} else {
+					write = gen.NAssign(op, []*gen.Node{gen.NIndex(id(target), idx)}, []*gen.Node{gen.NBin("+", id("x"), i(100))})
+				}
+				prog := append([]*gen.Node{gen.NSet("l", gen.NList(i(1), i(2), i(3), i(4), i(5))), gen.NSet("p", i(0))}, pre...)
+				prog = append(prog, gen.NForIn("x", id("l"), []*gen.Node{
+					gen.NCall("probe", gen.NStr("pass"), id("p"), id("x")),
+					gen.NIf([]*gen.Node{gen.NBin("<", idx.Clone(), i(5))}, [][]*gen.Node{{write}}, nil, false),
+					gen.NSet("p", gen.NBin("+", id("p"), i(1)))}),
+					gen.NCall("probe", gen.NStr("after"), id("l")))
+				judge(t, "iter-mutation", sem.NewCase(gen.FixAll(prog)), fmt.Sprintf("itermut/%d/%d/%s", via, off, op), true, "mutation-during-iteration")
+				n++
+			}
+		}
+	}
+	// rows: the loop variable is itself a list that is written through; a later row is replaced while iterating
+	progs := [][]*gen.Node{
+		{gen.NSet("rows", gen.NList(gen.NList(i(1)), gen.NList(i(1)), gen.NList(i(1)))), gen.NSet("p", i(0)),
+			gen.NForIn("r", id("rows"), []*gen.Node{gen.NAssign("+=", []*gen.Node{gen.NIndex(id("r"), i(0))}, []*gen.Node{id("p")}),
+				gen.NIf([]*gen.Node{gen.NBin("==", id("p"), i(0))}, [][]*gen.Node{{gen.NAssign("=", []*gen.Node{gen.NIndex(id("rows"), i(2))}, []*gen.Node{gen.NList(i(50))})}}, nil, false),
+				gen.NSet("p", gen.NBin("+", id("p"), i(1)))}), gen.NCall("probe", gen.NStr("rows"), id("rows"))},
+		{gen.NSet("l", gen.NList(i(1), i(2), i(3))), gen.NSet("s", gen.NSlice(id("l"), nil, nil, nil, false)),
+			gen.NForIn("x", id("l"), []*gen.Node{gen.NAssign("=", []*gen.Node{gen.NIndex(id("s"), i(2))}, []*gen.Node{i(9)}), gen.NCall("probe", gen.NStr("x"), id("x"))}), gen.NCall("probe", gen.NStr("l-s"), id("l"), id("s"))},
+	}
+	for k, p := range progs {
+		judge(t, "iter-mutation", sem.NewCase(gen.FixAll(p)), fmt.Sprintf("itermut/rows/%d", k), true, "mutation-during-iteration")
+		n++
+	}
+	evid.Exhaustive("write to a later position during for-in: via x offset x operator; rows", n)
+}
+
 func TestReplays(t *testing.T) {
 	files, _ := filepath.Glob(filepath.Join(evid.Dir(), "replays", prop, "*.json"))
 	if r := os.Getenv("VERIF_REPLAY"); r != "" {
